@@ -81,15 +81,35 @@ def calls_in(node, name):
     return out
 
 
+WHERE = {}
+
+
+def _w(flag, rel, node, note=""):
+    """remember the source line a flag was read from"""
+    WHERE[flag] = "%s:%d%s" % (rel, getattr(node, "lineno", 0), (" " + note) if note else "")
+
+
+def _last_assign(fn, target):
+    st = _stmts(fn)
+    for s_ in reversed(st):
+        if assign_to(s_, target):
+            return s_
+    return fn
+
+
 def translate():
     F = {}
+    WHERE.clear()
     # ---------------- circuit.py ----------------
     rel = "circuit/circuit.py"
     t = _parse(rel)
     fn = _find(t, rel, "QubitCircuit", "resolve_gates")
     F["f_resolve_final"] = flag_last_deepcopy(fn, rel + ":resolve_gates", "qc_temp")
+    _w("f_resolve_final", rel, _last_assign(fn, "qc_temp.gates"))
     fn = _find(t, rel, "QubitCircuit", "adjacent_gates")
     F["f_adjacent_final"] = flag_last_deepcopy(fn, rel + ":adjacent_gates", "temp")
+    _w("f_adjacent_final", rel, _last_assign(fn, "temp.gates"))
+    fn_adj = fn
     lit = True
     gate_calls = calls_in(fn, "Gate")
     if not gate_calls:
@@ -107,6 +127,7 @@ def translate():
             if isinstance(a, ast.Name) and a.id == "gate":
                 lit = False
     F["f_adjacent_literals"] = lit
+    _w("f_adjacent_literals", rel, fn_adj, "(all Gate(...) constructions and appends of adjacent_gates)")
     # reverse_circuit
     fn = _find(t, rel, "QubitCircuit", "reverse_circuit")
     st = _stmts(fn)
@@ -127,6 +148,7 @@ def translate():
             else:
                 raise Broken("translator:" + rel + ":reverse_circuit", "unrecognised %s=%s" % (k.arg, u(k.value)))
     F["f_reverse_copy"] = bool(gates_copied and not io_shared)
+    _w("f_reverse_copy", rel, _last_assign(fn, "temp.gates"), "(and input_states=/output_states= of the constructor, line %d)" % ctor[0].lineno)
     # add_circuit
     fn = _find(t, rel, "QubitCircuit", "add_circuit")
     fresh_lists = True
@@ -157,6 +179,12 @@ def translate():
         raise Broken("translator:" + rel + ":add_circuit", "add_gate(... targets=, arg_value=) not found")
     F["f_addc_fresh_lists"] = fresh_lists
     F["f_addc_arg_copy"] = arg_copy
+    for c in calls_in(fn, "add_gate"):
+        for k in c.keywords:
+            if k.arg == "targets":
+                _w("f_addc_fresh_lists", rel, k.value, "(tar / ctrl list comprehensions above)")
+            if k.arg == "arg_value":
+                _w("f_addc_arg_copy", rel, k.value)
 
     # ---------------- transpiler/chain.py ----------------
     rel = "transpiler/chain.py"
@@ -181,7 +209,9 @@ def translate():
         if u(v) in ("deepcopy(qc)", "copy.deepcopy(qc)"):
             raise Broken("translator:" + rel + ":to_chain_structure", "qc_t.gates = [] does not follow the copy")
     F["f_chain_input_copy"] = incopy
+    _w("f_chain_input_copy", rel, first[0])
     F["f_chain_final"] = flag_last_deepcopy(fn, rel + ":to_chain_structure", "qc_t")
+    _w("f_chain_final", rel, _last_assign(fn, "qc_t.gates"))
 
     # ---------------- compiler/scheduler.py, instruction.py ----------------
     rel = "compiler/scheduler.py"
@@ -189,9 +219,11 @@ def translate():
     fn = _find(t, rel, "Scheduler", "schedule")
     st = _stmts(fn)
     F["f_sched_copy"] = bool(st and assign_to(st[0], "circuit") and is_copy_of(st[0].value, "circuit") and "deepcopy" in u(st[0].value))
+    _w("f_sched_copy", rel, st[0] if st else fn)
     fn = _find(t, rel, "InstructionsGraph", "__init__")
     st = _stmts(fn)
     F["f_graph_copy"] = bool(st and assign_to(st[0], "instructions") and is_copy_of(st[0].value, "instructions") and "deepcopy" in u(st[0].value))
+    _w("f_graph_copy", rel, st[0] if st else fn)
     rel = "compiler/instruction.py"
     t = _parse(rel)
     fn = _find(t, rel, "Instruction", "__init__")
@@ -211,6 +243,7 @@ def translate():
         if calls_in(s, "sort"):
             ic = False
     F["f_instr_copy"] = ic
+    _w("f_instr_copy", rel, g[0])
 
     # ---------------- circuit/circuitsimulator.py ----------------
     rel = "circuit/circuitsimulator.py"
@@ -233,6 +266,7 @@ def translate():
     if not cb or "fresh" not in kinds:
         raise Broken("translator:" + rel + ":initialize", "assignments to self.cbits not found")
     F["f_sim_cbits_copy"] = "ref" not in kinds
+    _w("f_sim_cbits_copy", rel, cb[0])
     assigned = set()
     for s in _stmts(fn):
         for n in ast.walk(s) if isinstance(s, ast.If) else [s]:
@@ -243,6 +277,7 @@ def translate():
     st = _stmts(fn_run)
     first_is_init = bool(st and isinstance(st[0], ast.Expr) and isinstance(st[0].value, ast.Call) and u(st[0].value.func) == "self.initialize")
     F["f_sim_reinit"] = bool(first_is_init and need <= assigned)
+    _w("f_sim_reinit", rel, st[0] if st else fn_run, "(run starts with self.initialize; initialize assigns %s)" % ", ".join(sorted(x.split(".")[1] for x in need)))
     fn_stats = _find(t, rel, "CircuitSimulator", "run_statistics")
     if not [c for c in calls_in(fn_stats, "run") if u(c.func) == "self.run"]:
         raise Broken("translator:" + rel + ":run_statistics", "does not go through self.run")
@@ -262,9 +297,11 @@ def translate():
         F["f_gnp_copy"] = False
     else:
         raise Broken("translator:" + rel + ":get_noisy_pulses", "unrecognised pulses argument of process_noise")
+    _w("f_gnp_copy", rel, a[0] if a else calls[0])
     fn = _find(t, rel, "Processor", "set_coeffs")
     st = _stmts(fn)
     F["f_set_coeffs_clears"] = bool(st and isinstance(st[0], ast.Expr) and u(st[0].value) == "self.clear_pulses()")
+    _w("f_set_coeffs_clears", rel, st[0] if st else fn)
     rel = "noise.py"
     t = _parse(rel)
     fn = _find(t, rel, None, "process_noise")
@@ -278,9 +315,11 @@ def translate():
         F["f_pn_copy"] = False
     else:
         raise Broken("translator:" + rel + ":process_noise", "unrecognised noisy_pulses = " + u(a[0].value))
+    _w("f_pn_copy", rel, a[0])
     a = [s for s in st if assign_to(s, "noise_list")]
     appends = [c for c in calls_in(fn, "append") if u(c.func) == "noise_list.append"]
     F["f_pn_list_copy"] = bool((a and is_copy_of(a[0].value, "noise_list")) or not appends)
+    _w("f_pn_list_copy", rel, a[0] if a else fn)
 
     # ---------------- load_circuit overrides ----------------
     sets_gp = True
@@ -293,12 +332,14 @@ def translate():
             raise Broken("translator:" + rel + ":load_circuit", "expected one assignment to self.global_phase")
         if not (isinstance(g[0], ast.Assign) and u(g[0].value) == "compiler.global_phase"):
             sets_gp = False
+        WHERE["f_load_sets_gp"] = (WHERE.get("f_load_sets_gp", "") + " %s:%d" % (rel, g[0].lineno)).strip()
         ifs = [s for s in _stmts(fn) if isinstance(s, ast.If) and u(s.test) == "compilerisNone"]
         ok = False
         for s in ifs:
             for b in s.body:
                 if assign_to(b, "compiler") and isinstance(b.value, ast.Call) and u(b.value.func).endswith("Compiler"):
                     ok = True
+                    WHERE["f_default_comp_fresh"] = (WHERE.get("f_default_comp_fresh", "") + " %s:%d" % (rel, b.lineno)).strip()
         if not ok:
             fresh_comp = False
     rel = "device/modelprocessor.py"
@@ -308,6 +349,7 @@ def translate():
     for s in ast.walk(fn):
         if assign_to(s, "compiler") and isinstance(s.value, ast.Call) and u(s.value.func) == "self._default_compiler":
             ok = True
+            WHERE["f_default_comp_fresh"] = (WHERE.get("f_default_comp_fresh", "") + " %s:%d" % (rel, s.lineno)).strip()
     if not ok:
         fresh_comp = False
     F["f_load_sets_gp"] = sets_gp
@@ -327,14 +369,36 @@ def translate():
         for n in ast.walk(s):
             if assign_to(n, "self.global_phase"):
                 resets = True
+                _w("f_compile_resets_gp", rel, n)
+    if not resets:
+        _w("f_compile_resets_gp", rel, fn, "(no assignment to self.global_phase before the gate loop)")
     F["f_compile_resets_gp"] = resets
     stores = False
+    aliases = set()
+    where_args = fn
     for s in ast.walk(fn):
         if isinstance(s, ast.Call) and u(s.func) == "self.args.update":
             stores = True
+            where_args = s
         if isinstance(s, ast.Assign) and any(u(x).startswith("self.args") for x in s.targets):
             stores = True
+            where_args = s
+        if isinstance(s, ast.Assign) and len(s.targets) == 1 and isinstance(s.targets[0], ast.Name) and "self.args" in u(s.value):
+            if u(s.value) == "self.args":
+                aliases.add(s.targets[0].id)       # a second name for the compiler's own dict
+                where_args = s
+            elif is_copy_of(s.value, "self.args") or u(s.value) in ("dict(self.args)", "{**self.args}"):
+                where_args = s
+            else:
+                raise Broken("translator:" + rel + ":compile", "unrecognised use of self.args: " + u(s))
+    for s in ast.walk(fn):
+        if isinstance(s, ast.Call) and isinstance(s.func, ast.Attribute) and s.func.attr in ("update", "setdefault", "pop", "clear") \
+                and isinstance(s.func.value, ast.Name) and s.func.value.id in aliases:
+            stores = True
+        if isinstance(s, ast.Assign) and any(isinstance(x, ast.Subscript) and isinstance(x.value, ast.Name) and x.value.id in aliases for x in s.targets):
+            stores = True
     F["f_compile_args_local"] = not stores
+    _w("f_compile_args_local", rel, where_args)
     return F
 
 
@@ -363,4 +427,4 @@ def generate():
 if __name__ == "__main__":
     F = generate()
     for k in ORDER:
-        print(k, F[k])
+        print("%-22s %-5s %s" % (k, F[k], WHERE.get(k, "?")))
